@@ -84,6 +84,23 @@ def observe (s : DState) (fsid : Nat) (p : Str) : String × DState :=
   let rdS := match rd with | .ok b => encContent b | .err _ _ => "-" | .panic => "P"
   (s!"{encStr p}={exS}|{mdS}|{lsS}|{rdS}", s)
 
+/-- observation without opening the file (opening stamps the access time on the memory backend) -/
+def observeM (s : DState) (fsid : Nat) (p : Str) : String × DState :=
+  let (ex, s) := onPath s fsid p VPath.exists_
+  let (md, s) := onPath s fsid p VPath.metadata
+  let (ls, s) := onPath s fsid p VPath.readDir
+  let exS := match ex with | .ok true => "E" | .ok false => "A" | .err _ _ => "X" | .panic => "P"
+  let mdS := match md with | .ok m => encMeta m | .err _ _ => "-" | .panic => "P"
+  let lsS := match ls with
+    | .ok l => encList (l.map fun (c : VPath) => filenameInternal c.path)
+    | .err _ _ => "-" | .panic => "P"
+  (s!"{encStr p}={exS}|{mdS}|{lsS}|-", s)
+
+def snapshotM (s : DState) (fsid : Nat) (paths : List Str) : String × DState :=
+  paths.foldl (fun (acc : String × DState) p =>
+    let (o, s') := observeM acc.2 fsid p
+    (if acc.1.isEmpty then o else acc.1 ++ " " ++ o, s')) ("", s)
+
 /-- deep observation with timestamps except the access time -/
 def observeT (s : DState) (fsid : Nat) (p : Str) : String × DState :=
   let (md, s) := onPath s fsid p VPath.metadata
@@ -201,6 +218,10 @@ def stepWorld (s : DState) (toks : List String) : Option (String × DState) :=
     let fsid ← parseNat fsid
     let ps ← paths.mapM decStr
     pure (snapshotT s fsid ps)
+  | "snapm" :: fsid :: paths => do
+    let fsid ← parseNat fsid
+    let ps ← paths.mapM decStr
+    pure (snapshotM s fsid ps)
   | "snap" :: fsid :: paths => do
     let fsid ← parseNat fsid
     let ps ← paths.mapM decStr
@@ -302,6 +323,12 @@ def stepWorld (s : DState) (toks : List String) : Option (String × DState) :=
     let n ← parseNat n
     let h ← (s.rh[hid]?).join
     let (r, h') := h.read n
+    pure (encRes encBytes r, { s with rh := setAt s.rh hid (some h') })
+  | ["hreadall", hid] => do
+    -- Read::read_to_end from the current position
+    let hid ← parseNat hid
+    let h ← (s.rh[hid]?).join
+    let (r, h') := h.readToEnd
     pure (encRes encBytes r, { s with rh := setAt s.rh hid (some h') })
   | ["hseek", hid, whence, off] => do
     let hid ← parseNat hid
